@@ -43,8 +43,9 @@ VARS = {'foo': 5, 'bar': 'txt', 'baz_q': 2.5, 'TRUE': True, 'NULL': None, 'lst':
 
 
 class Gen(object):
-    def __init__(self, rnd):
+    def __init__(self, rnd, failing_calls=False):
         self.rnd = rnd
+        self.failing_calls = failing_calls
 
     def atom(self):
         r = self.rnd
@@ -69,7 +70,7 @@ class Gen(object):
 
     def call(self, d):
         r = self.rnd
-        name = r.choice(['FA', 'FB', 'F.c', 'SUM', 'MAX', 'COUNT', 'IF', 'CONCATENATE', 'NOW', 'PI'])
+        name = r.choice(['FA', 'FB', 'F.c', 'SUM', 'MAX', 'COUNT', 'IF', 'CONCATENATE', 'NOW', 'PI'] + (['FR', 'FE', 'SUM', 'MAX'] if self.failing_calls else []))
         if name == 'IF':
             args = [self.arg(d) for _ in range(3)]
         elif name in ('NOW', 'PI'):
@@ -81,6 +82,9 @@ class Gen(object):
                 a = self.atom()
                 while a[0] in ('s',) or (a[0] == 'var' and a[1] in ('bar',)):
                     a = self.atom()
+                if self.failing_calls and r.random() < 0.4:
+                    # an error among the items: the built-in itself fails with it, and is still a call like any other
+                    a = ('call', r.choice(['FR', 'FE']), [self.atom() for _ in range(r.randint(0, 2))])
                 args.append(a)
         else:
             args = [self.arg(d) for _ in range(r.randint(0, 4))]
@@ -159,7 +163,7 @@ class Check(FormulaCheck):
             'all $ patterns, random letter case, all four corner orders of ranges) whose event log is compared with the post-order traversal; or one single '
             'reference evaluated with 0-4 listeners calling the setter 0-3 times with values of every type. non-trivial = formula accepted and log compared; '
             'distinct = distinct formula (+ listener script).')
-    ASSUMPTIONS = ('only formulas whose calls return normally; unknown names excluded (C09); IF evaluates both branches so both raise events',
+    ASSUMPTIONS = ('only formulas whose calls return normally or fail with an error value (a custom function raising or returning one, SUM/MAX given one); unknown names excluded (C09); IF evaluates both branches so both raise events',
                    'arguments of calls are atoms or nested calls so that the argument values delivered with callFunction are known to the model')
 
     def plan(self, tier, seed):
@@ -187,6 +191,12 @@ class Check(FormulaCheck):
             return f
         for n in ('FA', 'FB', 'F.c'):
             p.set_function(n, mk(n))
+        from hotxlfp.formulas import error as xlerror
+
+        def fr(*a):
+            raise xlerror.DIV_ZERO
+        p.set_function('FR', fr)                                  # a call that fails with an error value ...
+        p.set_function('FE', lambda *a: xlerror.NOT_AVAILABLE)    # ... and one that returns one
 
         def unpacks(c):
             # the payload also unpacks as `row, col = cell`: the two routes to the coordinates must agree
@@ -233,10 +243,14 @@ class Check(FormulaCheck):
         del self.log[:]
         del self.tokens[:]
         r = self.parse(f)
-        if r['error'] is not None:
+        failing = ('FR(' in f or 'FE(' in f) and r['error'] in ('#DIV/0!', '#N/A')
+        if r['error'] is not None and not failing:
             rec.count('formula_errors')
             rec.case()
             return
+        if failing:
+            # an error value is a value: the evaluation went on to its end, so every reference was met - the failing calls included
+            rec.count('formulas_with_failing_calls_compared')
         exp = expected_events(t, [])
         got = [e[:3] if e[0] == 'fn' else e for e in self.log]
         kinds_ok = [x[0] for x in got] == [x[0] for x in exp]
@@ -320,8 +334,9 @@ class Check(FormulaCheck):
         rnd = self.rng(spec)
         self.fresh()
         g = Gen(rnd)
-        for _ in range(spec['n']):
-            t = g.expr(rnd.randint(0, 4))
+        gf = Gen(rnd, failing_calls=True)
+        for k in range(spec['n']):
+            t = (gf if k % 4 == 3 else g).expr(rnd.randint(0, 4))
             self.judge_formula(t, rec)
 
     # ------------------------------------------------------------------ setter protocol
